@@ -65,23 +65,6 @@ impl JulianDay {
     let mut d: isize = (self.day + 0.5) as isize;
     let mut f: f64 = self.day + 0.5 - (d as f64);
 
-    if d >= 2299161 {
-      let c: isize = (((d as f64) - 1867216.25) / 36524.25) as isize;
-      d += 1 + c - ((c as f64) / 4.0) as isize;
-    }
-    d += 1524;
-    let mut year: isize = (((d as f64) - 122.1) / 365.25) as isize;
-    d -= (365.25 * (year as f64)) as isize;
-    let mut month: isize = ((d as f64) / 30.601) as isize;
-    d -= (30.601 * (month as f64)) as isize;
-    let mut day: isize = d;
-    if month > 13 {
-      month -= 13;
-      year -= 4715;
-    } else {
-      month -= 1;
-      year -= 4716;
-    }
     f *= 24.0;
     let mut hour: isize = f as isize;
 
@@ -101,8 +84,27 @@ impl JulianDay {
       hour += 1
     }
     if hour > 23 {
+      // rounded up to midnight: carry into the day number before it is turned into a date
       hour -= 24;
-      day += 1
+      d += 1
+    }
+
+    if d >= 2299161 {
+      let c: isize = (((d as f64) - 1867216.25) / 36524.25) as isize;
+      d += 1 + c - ((c as f64) / 4.0) as isize;
+    }
+    d += 1524;
+    let mut year: isize = (((d as f64) - 122.1) / 365.25) as isize;
+    d -= (365.25 * (year as f64)) as isize;
+    let mut month: isize = ((d as f64) / 30.601) as isize;
+    d -= (30.601 * (month as f64)) as isize;
+    let day: isize = d;
+    if month > 13 {
+      month -= 13;
+      year -= 4715;
+    } else {
+      month -= 1;
+      year -= 4716;
     }
     SolarTime::from_ymd_hms(year, month as usize, day as usize, hour as usize, minute as usize, second as usize)
   }
